@@ -1,7 +1,7 @@
 (* Entry points of the executable model, by name. One dispatcher so that the OCaml driver and
    the in-Coq case files need no per-function glue. *)
 From Coq Require Import ZArith NArith List String Bool.
-From Sia Require Import Prim.Result Prim.Tok Currency.Model Merkle.Tree Merkle.Forest Merkle.Acc Merkle.Rhp Policy.Model Pow.Model.
+From Sia Require Import Prim.Result Prim.Tok Currency.Model Merkle.Tree Merkle.Forest Merkle.Acc Merkle.Rhp Policy.Model Pow.Model Codec.Schema Codec.Shape Codec.Irregular Gen.Schemas.
 Import ListNotations.
 Open Scope string_scope.
 Open Scope list_scope.
@@ -123,6 +123,42 @@ Section Dispatch.
         (run_parser (let* net := p_net in let* s := p_pstate in pret (net, s)) args)
     else None.
 
+  (* ---- C11/C10: generated wire shapes ---- *)
+  Definition ascii_of_byte (b : N) : Ascii.ascii := Ascii.ascii_of_N b.
+  Definition string_of_bytes (l : bytes) : string := fold_right (fun b s => String (ascii_of_byte b) s) EmptyString l.
+  Fixpoint find_type (n : string) (l : list (string * shape * shape)) : option (shape * shape) :=
+    match l with [] => None | (m, e, d) :: r => if String.eqb n m then Some (e, d) else find_type n r end.
+  Definition api_c11 (name : string) (args : list tok) : option (list tok) :=
+    match args with
+    | [TB tn; TB b] =>
+      let tname := string_of_bytes tn in
+      let found := match find_type tname gen_types with
+                   | Some ed => Some ed
+                   | None => if (tname =? "types.V1Currency") || (tname =? "types.V1SiafundOutput") || (tname =? "types.SpendPolicy")
+                             then Some (HNamed tname, HNamed tname) else None
+                   end in
+      match found with
+      | None => Some [TZ 3]
+      | Some (e, d) =>
+        if name =? "c11.recode" then
+          Some (match to_schema d, to_schema e with
+                | Some sd, Some se =>
+                  match dec recog sd b with
+                  | Some (v, rest) => [TZ 0; TB (enc se v); tnat (List.length rest)]
+                  | None => [TZ 1]
+                  end
+                | _, _ => [TZ 3]
+                end)
+        else if name =? "c11.decode" then
+          Some (match to_schema d with
+                | Some sd => match dec recog sd b with Some _ => [TZ 0] | None => [TZ 1] end
+                | None => [TZ 3]
+                end)
+        else None
+      end
+    | _ => None
+    end.
+
   (* ---- C16: RHP Merkle ---- *)
   Definition p_action : parser action :=
     let* k := pnat in
@@ -194,11 +230,14 @@ Section Dispatch.
     match api_c13 name args with
     | Some r => r
     | None =>
+    match api_c11 name args with
+    | Some r => r
+    | None =>
     match name, args with
     | "hash", [TB b] => [TB (H b)]
     | "c05.run", _ => api_c05 args
     | "c05.leafhash", [TB e; TZ i; TZ s] => [TB (leaf_hash H (mkLeaf e (Z.to_N i) (negb (Z.eqb s 0))))]
     | "c05.proofroot", TB x :: TZ i :: ps => [TB (proofRootN H x (Z.to_N i) (List.concat (map (fun t => match t with TB b => [b] | _ => [] end) ps)))]
     | _, _ => bad_args
-    end end end end end.
+    end end end end end end.
 End Dispatch.
